@@ -126,7 +126,7 @@ type stateOp struct {
 	// returns nil); "nop"; "move": field[0] -= last argument, field[1] += last argument, an error when field[0] is smaller (bank SendCoins)
 	kind  string
 	field []string
-	args  []string // "move": the names the address arguments must have in the source (from, to)
+	args  []string // "move": the names the address arguments must have in the source (from, to); "find": the source text of the key argument
 }
 type stateField struct{ name, typ string } // typ: a Gallina type ("Z", "G_Minter", ...)
 type statefulSpec struct {
@@ -136,10 +136,34 @@ type statefulSpec struct {
 	fields    []stateField
 	keeperPkg string             // package path (relative) of the Keeper type
 	ops       map[string]stateOp // keeper method -> operation
+	ctxTime   string             // the field holding the block time (sdk.Context used as a value means this field)
+	keeperTyp string             // name of the keeper-side receiver type whose methods are the operations ("Keeper" by default)
+	returns   string             // "" | "value": the function returns a value besides (or instead of) an error; the translation pairs it with the state
 	ctxOps    map[string]stateOp // sdk.Context method -> operation
 }
 
+var mktOps = map[string]stateOp{
+	// "ticket": an error unless TicketOK; on success the variable passed by address holds the payload field of its type
+	"ovmKeeper.VerifyTicketUnmarshal": {kind: "ticket", field: []string{"TicketOK", "UpdPayload", "ResPayload"}},
+	// "find": the market stored under the payload's uid (the argument must be spelled as listed) and whether it exists
+	"Keeper.GetMarket":              {kind: "find", field: []string{"Market", "Found"}, args: []string{"updatePayload.GetUID()", "resolutionPayload.UID"}},
+	"GetMarket":                     {kind: "find", field: []string{"Market", "Found"}, args: []string{"updatePayload.GetUID()", "resolutionPayload.UID"}},
+	"Keeper.SetMarket":              {kind: "set", field: []string{"Market"}},
+	"SetMarket":                     {kind: "set", field: []string{"Market"}},
+	"appendUnsettledResolvedMarket": {kind: "append", field: []string{"Queue"}},
+	"Keeper.Resolve":                {kind: "call", field: []string{"K_mkt_Resolve"}},
+}
+var mktFields = []stateField{{"TicketOK", "bool"}, {"UpdPayload", "G_MarketUpdateTicketPayload"}, {"ResPayload", "G_MarketResolutionTicketPayload"},
+	{"Found", "bool"}, {"Market", "G_Market"}, {"Queue", "list Z"}, {"Now", "Z"}}
+
 var statefulList = []statefulSpec{{
+	recv: "Keeper", pkg: "x/market/keeper", name: "Resolve", state: "mkt", fields: mktFields, keeperPkg: "x/market/keeper", ops: mktOps,
+	ctxTime: "Now", returns: "value",
+}, {
+	recv: "msgServer", pkg: "x/market/keeper", name: "Update", state: "mkt", keeperPkg: "x/market/keeper", ops: mktOps, ctxTime: "Now", keeperTyp: "msgServer",
+}, {
+	recv: "msgServer", pkg: "x/market/keeper", name: "Resolve", state: "mkt", keeperPkg: "x/market/keeper", ops: mktOps, ctxTime: "Now", keeperTyp: "msgServer",
+}, {
 	pkg: "x/mint", name: "BeginBlocker", state: "mint",
 	fields:    []stateField{{"Minter", "G_Minter"}, {"Params", "G_Params"}, {"Supply", "Z"}, {"Minted", "Z"}, {"Height", "Z"}},
 	keeperPkg: "x/mint/keeper",
@@ -313,6 +337,7 @@ type fctx struct {
 	state    *statefulSpec   // stateful kernel: the state record is the "receiver" g_st
 	nilErr   map[string]bool // error variables known to be nil (result of an infallible state operation)
 	nonNil   map[string]bool // error variables known to be non-nil (the failing branch of a fallible state operation)
+	stFields []stateField    // the fields of the state record of this stateful kernel
 }
 
 // stateCall: a keeper / context method of a stateful kernel; returns (expression, statement-effect, ok)
@@ -326,8 +351,16 @@ func (c *fctx) stateOpOf(f *ast.SelectorExpr) (stateOp, bool) {
 		return op, ok
 	}
 	isKeeper := func(t types.Type) bool {
+		if p, ok := t.(*types.Pointer); ok {
+			t = p.Elem()
+		}
 		n, ok := t.(*types.Named)
-		return ok && n.Obj().Name() == "Keeper" && n.Obj().Pkg() != nil && n.Obj().Pkg().Path() == repoModule+"/"+c.state.keeperPkg
+		return ok && (n.Obj().Name() == "Keeper" || n.Obj().Name() == c.state.keeperTyp) && n.Obj().Pkg() != nil && n.Obj().Pkg().Path() == repoModule+"/"+c.state.keeperPkg
+	}
+	if inner, ok := f.X.(*ast.SelectorExpr); ok && isKeeper(c.info.TypeOf(inner.X)) {
+		if op, ok := c.state.ops[inner.Sel.Name+"."+f.Sel.Name]; ok {
+			return op, ok
+		}
 	}
 	if isKeeper(t) {
 		op, ok := c.state.ops[f.Sel.Name]
@@ -364,6 +397,54 @@ func (c *fctx) stateArgs(op stateOp, call *ast.CallExpr) []string {
 	return args
 }
 
+// ticketOp: VerifyTicketUnmarshal(goCtx, ticket, &v): an error unless the ticket verifies; then v holds the payload of its type
+func (c *fctx) ticketOp(op stateOp, call *ast.CallExpr, okB func() string, errB string) string {
+	S := "S_" + c.state.state
+	if len(call.Args) != 3 {
+		return c.fail("ticket operation with %d arguments", len(call.Args))
+	}
+	u, ok := call.Args[2].(*ast.UnaryExpr)
+	if !ok || u.Op != token.AND {
+		return c.fail("ticket operation: third argument is not an address")
+	}
+	v, ok := u.X.(*ast.Ident)
+	if !ok {
+		return c.fail("ticket operation: third argument is not a variable")
+	}
+	want := "G_" + c.k.structOf(c.info.TypeOf(v))
+	field := ""
+	for _, f := range c.stFields {
+		if f.typ == want {
+			field = f.name
+		}
+	}
+	if field == "" {
+		return c.fail("ticket operation: no payload field of type %s in the state", want)
+	}
+	return fmt.Sprintf("(if negb (%s_%s g_st) then %s else let %s := %s_%s g_st in\n  %s)", S, op.field[0], errB, ident(v.Name), S, field, okB())
+}
+
+// findOp: v, found := k.Get(ctx, key): the record of the state and whether it exists; the key must be spelled as the spec lists
+func (c *fctx) findOp(op stateOp, call *ast.CallExpr) string {
+	S := "S_" + c.state.state
+	key := ""
+	for _, a := range call.Args {
+		if !isCtx(c.info.TypeOf(a)) {
+			key = types.ExprString(a)
+		}
+	}
+	okKey := false
+	for _, k := range op.args {
+		if k == key {
+			okKey = true
+		}
+	}
+	if !okKey {
+		c.fail("lookup under the key %s, expected one of %v", key, op.args)
+	}
+	return fmt.Sprintf("(%s_%s g_st, %s_%s g_st)", S, op.field[0], S, op.field[1])
+}
+
 // moveOp: the guarded transfer; okB / errB are the continuations with the error nil / non-nil
 func (c *fctx) moveOp(op stateOp, args []string, okB, errB string) string {
 	S := "S_" + c.state.state
@@ -377,7 +458,13 @@ func (c *fctx) applyStateOp(op stateOp, args []string, rest string) string {
 	S := "S_" + c.state.state
 	switch op.kind {
 	case "set":
-		return fmt.Sprintf("let g_st := set_%s_%s g_st %s in\n  %s", S, op.field[0], args[len(args)-1], rest)
+		also := ""
+		for _, f := range c.stFields {
+			if f.name == "Found" && op.field[0] == "Market" {
+				also = fmt.Sprintf("let g_st := set_%s_Found g_st true in\n  ", S)
+			}
+		}
+		return fmt.Sprintf("let g_st := set_%s_%s g_st %s in\n  %s%s", S, op.field[0], args[len(args)-1], also, rest)
 	case "add":
 		out := rest
 		for i := len(op.field) - 1; i >= 0; i-- {
@@ -386,6 +473,8 @@ func (c *fctx) applyStateOp(op stateOp, args []string, rest string) string {
 		return out
 	case "nop":
 		return rest
+	case "append":
+		return fmt.Sprintf("let g_st := set_%s_%s g_st (%s_%s g_st ++ [%s]) in\n  %s", S, op.field[0], S, op.field[0], args[len(args)-1], rest)
 	}
 	return c.fail("state operation %s used as a statement", op.kind)
 }
@@ -494,6 +583,9 @@ func (c *fctx) expr(e ast.Expr) string {
 		}
 		if e.Name == "true" || e.Name == "false" {
 			return e.Name
+		}
+		if c.state != nil && c.state.ctxTime != "" && isCtx(c.info.TypeOf(e)) {
+			return fmt.Sprintf("(S_%s_%s g_st)", c.state.state, c.state.ctxTime)
 		}
 		return ident(e.Name)
 	case *ast.SelectorExpr:
@@ -675,6 +767,18 @@ func (c *fctx) call(e *ast.CallExpr) string {
 			if op.kind == "get" {
 				return fmt.Sprintf("(S_%s_%s g_st)", c.state.state, op.field[0])
 			}
+			if op.kind == "find" {
+				return c.findOp(op, e)
+			}
+			if op.kind == "call" {
+				var as []string
+				for _, a := range e.Args {
+					if !isCtx(c.info.TypeOf(a)) {
+						as = append(as, c.expr(a))
+					}
+				}
+				return fmt.Sprintf("(%s g_st %s)", op.field[0], strings.Join(as, " "))
+			}
 			if op.kind == "gets" {
 				var parts []string
 				for _, fl := range op.field {
@@ -780,6 +884,16 @@ func (c *fctx) call(e *ast.CallExpr) string {
 		}
 		// method of a whitelisted struct
 		if s := c.k.structOf(c.info.TypeOf(f.X)); s != "" {
+			// generated protobuf getter GetX(): the field X (of a non-nil receiver)
+			if strings.HasPrefix(f.Sel.Name, "Get") && len(e.Args) == 0 {
+				if st, ok := c.k.structs[s].Underlying().(*types.Struct); ok {
+					for i := 0; i < st.NumFields(); i++ {
+						if st.Field(i).Name() == strings.TrimPrefix(f.Sel.Name, "Get") {
+							return fmt.Sprintf("(G_%s_%s %s)", s, st.Field(i).Name(), c.expr(f.X))
+						}
+					}
+				}
+			}
 			if fn, ok := c.info.Uses[f.Sel].(*types.Func); ok {
 				if g, ok := c.k.fn[fn]; ok {
 					return fmt.Sprintf("(%s %s)", g, strings.Join(append([]string{c.expr(f.X)}, args...), " "))
@@ -809,6 +923,22 @@ func isNilIdent(e ast.Expr) bool {
 }
 
 func (c *fctx) ret(s *ast.ReturnStmt) string {
+	if c.state != nil {
+		switch c.results {
+		case "val":
+			if len(s.Results) == 1 {
+				return fmt.Sprintf("(g_st, %s)", c.expr(s.Results[0]))
+			}
+		case "valerr":
+			// a message handler: the response is not modelled, the state is the result
+			if len(s.Results) == 2 {
+				if isNilIdent(s.Results[1]) {
+					return "Some g_st"
+				}
+				return "None"
+			}
+		}
+	}
 	switch c.results {
 	case "none":
 		return c.finish()
@@ -966,6 +1096,12 @@ func (c *fctx) skippable(call *ast.CallExpr) bool {
 	}
 	if id, ok := f.X.(*ast.Ident); ok {
 		if pn, ok := c.info.Uses[id].(*types.PkgName); ok && pn.Imported().Path() == "github.com/cosmos/cosmos-sdk/telemetry" {
+			return true
+		}
+	}
+	// msg.EmitEvent(&ctx, ...): event emission of a message type
+	if f.Sel.Name == "EmitEvent" && len(call.Args) >= 1 {
+		if u, ok := call.Args[0].(*ast.UnaryExpr); ok && u.Op == token.AND && isCtx(c.info.TypeOf(u.X)) {
 			return true
 		}
 	}
@@ -1147,6 +1283,9 @@ func (c *fctx) stmts(list []ast.Stmt) string {
 									if op, ok := c.stateOpOf(f); ok && op.kind == "move" {
 										return c.moveOp(op, c.stateArgs(op, call), rest(), thenB)
 									}
+									if op, ok := c.stateOpOf(f); ok && op.kind == "ticket" {
+										return c.ticketOp(op, call, rest, thenB)
+									}
 									// a method that assigns to its receiver (a local variable): the translation returns the new value or None
 									if fn, ok := c.info.Uses[f.Sel].(*types.Func); ok && c.k.mutFn[fn] {
 										if rid, ok := f.X.(*ast.Ident); ok {
@@ -1245,6 +1384,9 @@ func (c *fctx) stmts(list []ast.Stmt) string {
 						val = c.expr(vs.Values[j])
 					} else if obj := c.info.Defs[vs.Names[j]]; obj != nil {
 						val = zeroOf(obj.Type())
+						if s := c.k.structOf(obj.Type()); s != "" {
+							val = "G_" + s + "_zero"
+						}
 					} else {
 						val = "0"
 					}
@@ -1269,6 +1411,48 @@ func (c *fctx) stmts(list []ast.Stmt) string {
 				b, bok := s.Lhs[1].(*ast.Ident)
 				if aok && bok {
 					return fmt.Sprintf("let '(%s, %s) := %s in\n  %s", ident(a.Name), ident(b.Name), c.expr(s.Rhs[0]), rest())
+				}
+			}
+		}
+		// ctx := sdk.UnwrapSDKContext(goCtx): the context is part of the state
+		if len(s.Lhs) == 1 && len(s.Rhs) == 1 && c.state != nil && isCtx(c.info.TypeOf(s.Lhs[0])) {
+			return rest()
+		}
+		if c.state != nil && len(s.Rhs) == 1 {
+			if call, ok := s.Rhs[0].(*ast.CallExpr); ok {
+				if f, ok := call.Fun.(*ast.SelectorExpr); ok {
+					if op, ok := c.stateOpOf(f); ok {
+						switch {
+						case op.kind == "find" && len(s.Lhs) == 2:
+							a, aok := s.Lhs[0].(*ast.Ident)
+							b, bok := s.Lhs[1].(*ast.Ident)
+							if aok && bok {
+								return fmt.Sprintf("let '(%s, %s) := %s in\n  %s", ident(a.Name), ident(b.Name), c.findOp(op, call), rest())
+							}
+						case op.kind == "call" && len(s.Lhs) == 1:
+							if a, ok := s.Lhs[0].(*ast.Ident); ok {
+								return fmt.Sprintf("let '(g_st, %s) := %s in\n  %s", ident(a.Name), c.expr(call), rest())
+							}
+						case op.kind == "ticket" && len(s.Lhs) == 1:
+							if id, ok := s.Lhs[0].(*ast.Ident); ok {
+								if c.nilErr == nil {
+									c.nilErr = map[string]bool{}
+								}
+								if c.nonNil == nil {
+									c.nonNil = map[string]bool{}
+								}
+								c.nonNil[id.Name] = true
+								errB := rest()
+								delete(c.nonNil, id.Name)
+								return c.ticketOp(op, call, func() string {
+									c.nilErr[id.Name] = true
+									r := rest()
+									delete(c.nilErr, id.Name)
+									return r
+								}, errB)
+							}
+						}
+					}
 				}
 			}
 		}
@@ -1671,13 +1855,19 @@ func analyseKernels(w *world) string {
 	}
 	// stateful kernels
 	stateEmitted := map[string]bool{}
+	stateFieldsOf := map[string][]stateField{}
+	for i := range statefulList {
+		if len(statefulList[i].fields) > 0 {
+			stateFieldsOf[statefulList[i].state] = statefulList[i].fields
+		}
+	}
 	for i := range statefulList {
 		sp := &statefulList[i]
 		S := "S_" + sp.state
 		if !stateEmitted[S] {
 			stateEmitted[S] = true
 			var fs, names []string
-			for _, f := range sp.fields {
+			for _, f := range stateFieldsOf[sp.state] {
 				fs = append(fs, fmt.Sprintf("%s_%s : %s", S, f.name, f.typ))
 				names = append(names, f.name)
 			}
@@ -1695,6 +1885,9 @@ func analyseKernels(w *world) string {
 			}
 		}
 		gname := fmt.Sprintf("K_%s_%s", sp.state, sp.name)
+		if sp.recv == "msgServer" {
+			gname = fmt.Sprintf("K_%s_msg%s", sp.state, sp.name)
+		}
 		p := w.all[repoModule+"/"+sp.pkg]
 		var fn *types.Func
 		if p != nil && sp.recv == "" {
@@ -1716,14 +1909,18 @@ func analyseKernels(w *world) string {
 			continue
 		}
 		fd := w.decls[fn]
-		c := &fctx{k: k, info: fd.pkg.TypesInfo, pkg: fd.pkg, recvName: "st", mutating: true, results: "none", state: sp}
+		c := &fctx{k: k, info: fd.pkg.TypesInfo, pkg: fd.pkg, recvName: "st", mutating: true, results: "none", state: sp, stFields: stateFieldsOf[sp.state]}
 		sig := fn.Type().(*types.Signature)
 		switch {
 		case sig.Results().Len() == 0:
 		case sig.Results().Len() == 1 && sig.Results().At(0).Type().String() == "error":
 			c.results = "err"
+		case sig.Results().Len() == 1 && sp.returns == "value":
+			c.results = "val"
+		case sig.Results().Len() == 2 && sig.Results().At(1).Type().String() == "error":
+			c.results = "valerr"
 		default:
-			c.fail("a stateful kernel returns nothing or an error")
+			c.fail("a stateful kernel returns nothing, an error, a value (declared) or a response and an error")
 		}
 		params := []string{fmt.Sprintf("(g_st : %s)", S)}
 		for j := 0; j < sig.Params().Len(); j++ {
